@@ -79,6 +79,11 @@ func init() {
 			}
 			// the first thing the primary process does: all workers enumerate the SAME small heights at once
 			fams = append(fams, mon.Family{Name: "cold-start", N: 1, Serial: true, Run: func(w *mon.W, _ int) {
+				l := coldPick(coldPathCalls(), "IndexToPath", "PathToIndex")
+				if !coldFirst(w, l) {
+					return
+				}
+				defer coldLast(w, l)
 				// the first queries of the process: the extreme (h, index) pairs
 				for _, hb := range []c05Block{{h: 30, start: 1<<31 - 2, n: 1, dup: true}, {h: 0, start: 0, n: 1, dup: true}, {h: 30, start: 0, n: 1, dup: true}, {h: 5, start: 62, n: 1, dup: true}, {h: 4, start: 30, n: 1, dup: true}} {
 					c05Run(w, hb)
